@@ -87,7 +87,7 @@ Fixpoint lift (M : rmap) (t : ptree) (pd : dict) : list (option val) :=
   match t with
   | PLeaf n d => [pget n (model_update [(n, d)] (rename_shield M pd))]
   | PSpy sd => [Some (spy_value (model_update sd (rename_shield M pd)))]
-  | PSol children _ _ _ =>
+  | PSol children _ _ _ _ =>
       (fix go (l : list (rmap * ptree)) : list (option val) :=
          match l with
          | [] => []
@@ -97,7 +97,7 @@ Fixpoint lift (M : rmap) (t : ptree) (pd : dict) : list (option val) :=
 
 Definition deliver_flat (t : ptree) (incoming : dict) : list (option val) :=
   match t with
-  | PSol children sdef adds sdef2 =>
+  | PSol children sdef adds sdef2 _ =>
       let pd := solver_update fn (node_defaults t) adds incoming in
       (fix go (l : list (rmap * ptree)) : list (option val) :=
          match l with
